@@ -485,7 +485,8 @@ func mag(e *E, leaves []cval) float64 {
 			m = math.Max(m, mag(k, leaves))
 		}
 		if e.k == kNary && (e.lop == "bitor" || e.lop == "bitand" || e.lop == "bitxor") {
-			return 2*m + 1
+			// a folded bit operation of negative constants comes out as a 32-bit pattern (2^32 - k)
+			return math.Max(2*m+1, 4294967296)
 		}
 		return m
 	}
@@ -651,6 +652,12 @@ func classifyAt(x *E, inline []bool) string {
 				return "fold-reassoc-decimal"
 			}
 		}
+	}
+	if x.k == kTri || (x.k == kNary && x.op == "$") {
+		// localize stopped at a node none of whose operands differs on its own and that does
+		// no arithmetic itself: the difference exists only in the context of the whole function
+		// (known cause: codegen's constant pool handing out an Equal constant of another kind)
+		return "fold-differs-only-in-context"
 	}
 	return "fold-value-differs"
 }
@@ -867,6 +874,10 @@ type pin struct {
 	inline []bool
 }
 
+// pinSig: the signature a difference of a pinned program gets when classify's text based naming
+// would be wrong for it
+var pinSig = map[string]string{"{0} ? {1} : ({2} + {3})": "fold-differs-only-in-context"}
+
 var pinned = []pin{
 	{"{0} + {1} + {2}", []string{"1e15", ".5", ".5"}, []bool{false, true, true}},
 	{"~ ({0} in ({1}, {2}))", []string{"1", "2", "3"}, []bool{true, true, true}},
@@ -879,6 +890,9 @@ var pinned = []pin{
 	{"{0} & {1}", []string{"'a'", "0"}, []bool{false, true}},
 	{"{0} * {1} * {2}", []string{".1", "3", "7"}, []bool{false, true, true}},
 	{"{0} / {1} / {2}", []string{"7", "7", "7"}, []bool{true, true, false}},
+	// the constant pool of a function must keep an integer and a decimal constant apart
+	{"{0} ? {1} : ({2} + {3})", []string{"false", "10000000000000000", "1e16", "1"},
+		[]bool{false, true, true, false}},
 }
 
 func runPinned(t *lib.Trace) {
@@ -902,6 +916,9 @@ func runPinned(t *lib.Trace) {
 		a, b := runProg(progA, args), runProg(progB, args)
 		t.Count("pinned")
 		if sig := classify(progA, p.leaves, a, b, false); sig != "" {
+			if ps := pinSig[p.expr]; ps != "" {
+				sig = ps
+			}
 			t.Fail(sig, fmt.Sprintf("%s with (%s): partly constant => %s ; all run time => %s",
 				progA, strings.Join(p.leaves, ", "), a, b))
 		}
